@@ -303,12 +303,16 @@ impl Gen {
             return if self.rng.chance(1, 2) { b"\x1b=".to_vec() } else { b"\x1b>".to_vec() };
         }
         let mut s = String::from("\x1b[?");
-        let n = self.rng.range(1, 3);
+        // several modes in one sequence apply in order: every implemented private mode (the
+        // alternate screen and origin mode included) can stand before or after any other one
+        let n = if self.rng.chance(1, 4) { self.rng.range(3, 6) } else { self.rng.range(1, 3) };
         for i in 0..n {
             if i > 0 {
                 s.push(';');
             }
-            let m = *self.rng.pick(&[1u64, 25, 2004, 9, 1000, 1002, 1003, 1005, 1006, 1, 25, 7, 12, 1004]);
+            let m = *self.rng.pick(&[
+                1u64, 25, 2004, 9, 1000, 1002, 1003, 1005, 1006, 1, 25, 7, 12, 1004, 47, 1049, 6, 47, 2004, 1006, 1002,
+            ]);
             s.push_str(&m.to_string());
         }
         s.push(if self.rng.chance(1, 2) { 'h' } else { 'l' });
@@ -865,6 +869,11 @@ pub fn pick_size(rng: &mut Rng, thorough: bool, case_no: u64) -> (u64, u64) {
 }
 
 pub fn pick_sb(rng: &mut Rng, rows: u64) -> u64 {
+    // "every scrollback capacity": the unlimited one and the powers of two an allocation sized by
+    // the capacity would trip over
+    if rng.chance(1, 12) {
+        return *rng.pick(&[u64::MAX, 1 << 58, 1 << 62, (1 << 32) + 1, u64::from(u32::MAX), 65_536, u64::MAX - 1]);
+    }
     match rng.below(8) {
         0 | 1 => 0,
         2 => 1,
